@@ -51,6 +51,7 @@
 -/
 import QKV.Lemmas.Config
 import QKV.Lemmas.ConfigState
+import QKV.Lemmas.ConfigCallTime
 namespace QKV.Props.C09
 open QKV.Py
 
@@ -809,5 +810,163 @@ example (c : Cls) (w : World) : ∃ i, constructI w c [] [] = .ok i ∧ Reachabl
 example : IgnoresBuildOnlyI (fun w i => (w.sigmoid, i.q.cls, i.q.get "max_value", i.hid)) := by
   intro w a b hc h hh
   simp only [hc, h "max_value" (by decide), hh]
+
+/-! ### Strengthening round 3 (seed C09-9): call-time derived quantities, layer-held quantizers,
+    assignment to declared-modifiable attributes -/
+
+/-- everything `quantized_linear.__call__` derives from the current attributes (clip range,
+    data-type scale, sign-function switch, auto-alpha switch) reads serialised options only -/
+theorem C09_linDerived_ignores_build_only :
+    IgnoresBuildOnlyI (fun (_ : World) (i : Inst) => linDerived i.q) := by
+  intro w a b _ h _
+  show linDerived a.q = linDerived b.q
+  have key : ∀ (q q' : Q), q.get "bits" = q'.get "bits" →
+      q.get "keep_negative" = q'.get "keep_negative" → q.get "symmetric" = q'.get "symmetric" →
+      q.get "integer" = q'.get "integer" → q.get "alpha" = q'.get "alpha" →
+      linDerived q = linDerived q' := by
+    intro q q' h1 h2 h3 h4 h5
+    unfold linDerived linClipBounds linDataTypeScale linUseSign linAutoAlpha
+    rw [h1, h2, h3, h4, h5]
+  exact key _ _ (h "bits" (by decide)) (h "keep_negative" (by decide))
+    (h "symmetric" (by decide)) (h "integer" (by decide)) (h "alpha" (by decide))
+
+/-- **Same function after any history that also re-configures the live object through its
+    declared-modifiable attributes** (`q.symmetric = v`, `q.qnoise_factor = v` on a
+    `quantized_linear`, next to `__call__`, `_set_trainable_parameter()`, `update_qnoise_factor`
+    and switches of the process-level state, in any order): the configuration taken afterwards
+    rebuilds, by either route and in whatever world the history ended in, a quantizer of the same
+    class with the same options (build-only aside), hidden attributes, configuration and the
+    same value of every call-time function in every later world. -/
+theorem C09_historyX_same_function (w0 : World) (c : Cls) (args : List PyVal) (kw : Env)
+    (i0 : Inst) (hcon : constructI w0 c args kw = .ok i0) (steps : List StepX) :
+    let s := runHistoryX (w0, i0) steps
+    ∃ i', rebuildDirectI s.1 s.2 = .ok i' ∧ rebuildViaGetQuantizerI s.1 s.2 = .ok i' ∧
+      i'.q.cls = c ∧ (∀ k, k ∉ buildOnly → i'.q.get k = s.2.q.get k) ∧ i'.hid = s.2.hid ∧
+      getConfig i'.q = getConfig s.2.q ∧
+      ∀ {α : Type} (apply : World → Inst → α), IgnoresBuildOnlyI apply →
+        ∀ w2 : World, apply w2 i' = apply w2 s.2 := by
+  intro s
+  have hc0 := canon_of_constructI hcon
+  have hcan : Canon s.2 := canon_runHistoryX (s := (w0, i0)) hc0.2 steps
+  have hcls : s.2.q.cls = c := (runHistoryX_cls (w0, i0) steps).trans hc0.1
+  obtain ⟨i', h1, h2, h3, h4, h5, h6, -, h8⟩ := C09_canon_roundtrip s.2 hcan s.1
+  exact ⟨i', h1, h2, h3.trans hcls, h4, h5, h6, h8⟩
+
+/-- the extended histories contain the old ones -/
+theorem C09_historyX_extends_history (s : World × Inst) (steps : List Step) :
+    runHistoryX s (steps.map StepX.base) = runHistory s steps := runHistoryX_base s steps
+
+/-- **The clip range (and every other call-time derived quantity) of the rebuilt quantizer is
+    the one of the USED object**, not the one the original had at construction: after any
+    extended history — in particular after a layer has been handed the quantizer. -/
+theorem C09_linear_call_time_quantities_roundtrip (w0 : World) (c : Cls) (args : List PyVal)
+    (kw : Env) (i0 : Inst) (hcon : constructI w0 c args kw = .ok i0) (steps : List StepX)
+    (i' : Inst) (hr : rebuildDirectI (runHistoryX (w0, i0) steps).1
+      (runHistoryX (w0, i0) steps).2 = .ok i') :
+    linDerived i'.q = linDerived (runHistoryX (w0, i0) steps).2.q ∧
+    linClipBounds i'.q = linClipBounds (runHistoryX (w0, i0) steps).2.q := by
+  obtain ⟨j, hj, -, -, -, -, -, happ⟩ := C09_historyX_same_function w0 c args kw i0 hcon steps
+  rw [hj] at hr; cases hr
+  have h := happ _ C09_linDerived_ignores_build_only w0
+  exact ⟨h, congrArg LinDerived.clip h⟩
+
+/-- a `quantized_linear` that a layer has been handed (`_set_trainable_parameter()` with
+    `alpha=None`) clips symmetrically, whatever `symmetric` was at construction: for every
+    integer width `b ≥ 2` with `keep_negative=True` the range is `[-(2^(b-1) - 1), 2^(b-1) - 1]` -/
+theorem C09_linear_clip_bounds_after_set_trainable (i : Inst) (hcan : Canon i)
+    (hc : i.q.cls = .quantized_linear) (b : Int) (hb : i.q.get "bits" = .int b) (h2 : 2 ≤ b)
+    (hk : i.q.get "keep_negative" = .bool true) (ha : i.q.get "alpha" = .none) :
+    linClipBounds (setTrainable i).q
+      = some (-(QKV.pow2 (b - 1)) + 1, QKV.pow2 (b - 1) - 1) := by
+  have hkeys := hcan.1
+  obtain ⟨⟨c, e⟩, hid⟩ := i
+  simp only at hc; subst hc
+  simp only [Q.get] at hb hk ha hkeys
+  have hst : (setTrainable ⟨⟨.quantized_linear, e⟩, hid⟩).q
+      = ⟨.quantized_linear, (e.set "alpha" (.str "auto_po2")).set "symmetric" (.bool true)⟩ := by
+    simp [setTrainable, Q.get, ha, PyVal.isNone]
+  rw [hst]
+  apply linClipBounds_signed (sy := 1)
+  · show Env.get _ "bits" = _
+    rw [Env.get_set_ne (by decide), Env.get_set_ne (by decide)]; exact hb
+  · exact h2
+  · show Env.get _ "keep_negative" = _
+    rw [Env.get_set_ne (by decide), Env.get_set_ne (by decide)]; exact hk
+  · show (Env.get _ "symmetric").numVal = _
+    rw [Env.get_set_self (by rw [Env.keys_set, hkeys]; decide)]
+    rfl
+
+/-- **the clip range is NOT fixed at construction**: for every width `b ≥ 2`, a
+    `quantized_linear(b, …, symmetric=0)` (or `False`) with `alpha=None` has the range
+    `[-2^(b-1), 2^(b-1) - 1]` when built and a different one once a layer holds it — a value
+    computed once in `__init__` is stale exactly there (the seeded change C09-9) -/
+theorem C09_linear_clip_bounds_not_fixed_at_construction (i : Inst) (hcan : Canon i)
+    (hc : i.q.cls = .quantized_linear) (b : Int) (hb : i.q.get "bits" = .int b) (h2 : 2 ≤ b)
+    (hk : i.q.get "keep_negative" = .bool true) (ha : i.q.get "alpha" = .none)
+    (hs : (i.q.get "symmetric").numVal = some 0) :
+    linClipBounds i.q = some (-(QKV.pow2 (b - 1)) + 0, QKV.pow2 (b - 1) - 1) ∧
+    linClipBounds (setTrainable i).q ≠ linClipBounds i.q := by
+  have h0 := linClipBounds_signed hb h2 hk hs
+  refine ⟨h0, ?_⟩
+  rw [C09_linear_clip_bounds_after_set_trainable i hcan hc b hb h2 hk ha, h0]
+  intro h
+  have h1 := congrArg Prod.fst (Option.some.inj h)
+  simp only at h1
+  linarith
+
+/-- the failing input of the seeded change C09-9 in the code as it is:
+    `quantized_linear(2, 1, symmetric=0)` is built with the range (-2, 1); handed to a layer it
+    holds alpha="auto_po2", symmetric=True and clips to (-1, 1); the quantizer rebuilt from its
+    configuration clips to (-1, 1) as well; assigning `symmetric = 0` again gives (-2, 1) and a
+    rebuilt quantizer that follows -/
+theorem C09_linear_layer_held_roundtrip_witness :
+    ∃ i j j' k k', constructI {} .quantized_linear [.int 2, .int 1, .int 0] [] = .ok i ∧
+      linClipBounds i.q = some (-2, 1) ∧
+      j = setTrainable i ∧ j.q.get "alpha" = .str "auto_po2" ∧ j.q.get "symmetric" = .bool true ∧
+      linClipBounds j.q = some (-1, 1) ∧
+      rebuildDirectI {} j = .ok j' ∧ j'.q = j.q ∧ linClipBounds j'.q = some (-1, 1) ∧
+      k = assignAttr "symmetric" (.int 0) j ∧ linClipBounds k.q = some (-2, 1) ∧
+      rebuildDirectI {} k = .ok k' ∧ linClipBounds k'.q = some (-2, 1) := by
+  have h : (match constructI {} .quantized_linear [.int 2, .int 1, .int 0] [] with
+      | .ok i =>
+        (match rebuildDirectI {} (setTrainable i),
+               rebuildDirectI {} (assignAttr "symmetric" (.int 0) (setTrainable i)) with
+          | .ok j', .ok k' =>
+            decide (linClipBounds i.q = some (-2, 1)) &&
+            decide ((setTrainable i).q.get "alpha" = .str "auto_po2") &&
+            decide ((setTrainable i).q.get "symmetric" = .bool true) &&
+            decide (linClipBounds (setTrainable i).q = some (-1, 1)) &&
+            decide (j'.q = (setTrainable i).q) && decide (linClipBounds j'.q = some (-1, 1)) &&
+            decide (linClipBounds (assignAttr "symmetric" (.int 0) (setTrainable i)).q
+              = some (-2, 1)) &&
+            decide (linClipBounds k'.q = some (-2, 1))
+          | _, _ => false)
+      | .error _ => false) = true := by decide +kernel
+  split at h
+  · rename_i i hi
+    split at h
+    · rename_i j' k' hj' hk'
+      simp only [Bool.and_eq_true, decide_eq_true_eq] at h
+      obtain ⟨⟨⟨⟨⟨⟨⟨a1, a2⟩, a3⟩, a4⟩, a5⟩, a6⟩, a7⟩, a8⟩ := h
+      exact ⟨i, _, j', _, k', hi, a1, rfl, a2, a3, a4, hj', a5, a6, rfl, a7, hk', a8⟩
+    · cases h
+  · cases h
+
+/-- non-vacuity: the default `quantized_linear` with `symmetric=0` satisfies every hypothesis of
+    `C09_linear_clip_bounds_not_fixed_at_construction` (b = 8) -/
+example : ∃ i, constructI {} .quantized_linear [] [("symmetric", .int 0)] = .ok i ∧ Canon i ∧
+    i.q.cls = .quantized_linear ∧ i.q.get "bits" = .int 8 ∧
+    i.q.get "keep_negative" = .bool true ∧ i.q.get "alpha" = .none ∧
+    (i.q.get "symmetric").numVal = some 0 := by
+  have h : (match constructI {} .quantized_linear [] [("symmetric", .int 0)] with
+      | .ok i => decide (i.q.cls = .quantized_linear) && decide (i.q.get "bits" = .int 8) &&
+          decide (i.q.get "keep_negative" = .bool true) && decide (i.q.get "alpha" = .none) &&
+          decide ((i.q.get "symmetric").numVal = some 0)
+      | .error _ => false) = true := by decide +kernel
+  split at h
+  · rename_i i hi
+    simp only [Bool.and_eq_true, decide_eq_true_eq] at h
+    exact ⟨i, hi, (canon_of_constructI hi).2, h.1.1.1.1, h.1.1.1.2, h.1.1.2, h.1.2, h.2⟩
+  · cases h
 
 end QKV.Props.C09
